@@ -353,3 +353,16 @@ claim("C35", CLJ,
       "TLC; GCC on this machine is the platform; no bit-fields / anonymous members; one recorded known finding (accesses across "
       "nested arrays), decided by TLC from the declaration",
       "DESIGN.md 5/C35", "CLayout")
+
+MTJ = ("TLA+ state machine of a memory region under typed member writes (MemTypes.tla over CLayout.tla's packed layout and BV.tla): "
+       "recorded histories of writes through the real memory views are validated by TLC step by step (trace validation: the region "
+       "after each call must be the specification's successor state)")
+
+claim("C34", MTJ,
+      "MemTypes.tla: a write of a member changes exactly the member's extent to the number's encoding (byte order) or, for a bit-field "
+      "member, exactly its bits of the backing number; the value read back is the value reduced to the member's width; offsets and "
+      "sizes are those of the sequential layout. Random type definitions (nested structs, unions, arrays, integers of both byte "
+      "orders, pointers, bit-fields reaching the most significant bit or not, strings in five encodings) are instantiated with "
+      "miasm.core.types on a VmMngr region of random bytes; histories of 2..6 writes through MemStruct / MemArray / MemBitField / "
+      "MemStr views are recorded (region after each call, value read back, reported address and size) and validated by TLC.",
+      "TLC; integers only (no floats); strings after the structure", "DESIGN.md 5/C34", "MemTypes")
